@@ -631,6 +631,40 @@ impl<'a> Interp<'a> {
                     self.c.verif_raw_gate(sel, wires, pi);
                 }
             }
+            "propagate" => {
+                // generic constraint propagation (no gadget knowledge): in row order,
+                // every arithmetic row whose output wire `c` makes its FIRST appearance
+                // in that row (an "evaluated output") gets c recomputed from the row:
+                // c := -(q_m ab + q_l a + q_r b + q_f d + q_c + pi) / q_o.
+                // Witnesses below `from` and those listed in `pinned` are left alone.
+                let from = usz(op, "from")?;
+                let pinned: Vec<usize> = op
+                    .get("pinned")
+                    .and_then(|p| p.as_array())
+                    .map(|a| a.iter().filter_map(|x| x.as_u64()).map(|x| x as usize).collect())
+                    .unwrap_or_default();
+                let snap = self.c.verif_snapshot();
+                let pis: HashMap<usize, BlsScalar> = snap.public_inputs.iter().cloned().collect();
+                let mut seen = vec![false; snap.witnesses.len()];
+                let mut vals = snap.witnesses.clone();
+                for (i, row) in snap.rows.iter().enumerate() {
+                    let [a, b, c, d] = row.wires;
+                    let q = &row.selectors;
+                    let fresh = c >= from && !seen[c] && c != a && c != b && c != d && !pinned.contains(&c);
+                    if fresh && q[6] != BlsScalar::zero() && q[3] != BlsScalar::zero() {
+                        let pi = pis.get(&i).copied().unwrap_or(BlsScalar::zero());
+                        let x = q[0] * vals[a] * vals[b] + q[1] * vals[a] + q[2] * vals[b]
+                            + q[4] * vals[d] + q[5] + pi;
+                        if let Some(inv) = Option::<BlsScalar>::from(q[3].invert()) {
+                            vals[c] = -(x * inv);
+                            self.c.verif_set_witness(c, vals[c]);
+                        }
+                    }
+                    for w in row.wires {
+                        seen[w] = true;
+                    }
+                }
+            }
             "ret" => {
                 // declares which witnesses the scenario regards as "returned"
                 if let Some(ws) = op.get("w").and_then(|w| w.as_array()) {
